@@ -16,12 +16,22 @@ class Unmodelled(Exception):
     pass
 
 
+class NotConstant(Exception):
+    """the evaluation performs an operation with undefined behaviour: the call is not a constant expression"""
+
+
+LIMITS = {"epsilon": 2.0 ** -52, "quiet_NaN": float("nan"), "infinity": float("inf"), "max": 1.7976931348623157e308,
+          "min": 2.2250738585072014e-308, "lowest": -1.7976931348623157e308, "denorm_min": 5e-324}
+
+
 class Return(Exception):
     def __init__(self, v):
         self.v = v
 
 
 def same(a, b):
+    if isinstance(a, str) or isinstance(b, str):
+        return False
     if isinstance(a, bool) or isinstance(b, bool):
         return bool(a) == bool(b)
     a, b = float(a), float(b)
@@ -49,9 +59,14 @@ def ev(e, env, int_result_types=()):
     if k == "cast" or (k == "construct" and len(e.get("a", [])) == 1):
         inner = ev(e["e"] if k == "cast" else e["a"][0], env)
         ty = (e.get("ty") or "").replace("const ", "").strip()
+        if "<" not in ty:
+            ty = ty.split("::")[-1]
         if ty in INT_TYPES or ty in env.get("__int_types__", ()):
             if isinstance(inner, float) and (math.isinf(inner) or math.isnan(inner)):
                 raise Unmodelled("conversion of a non-finite value to an integer type")
+            if isinstance(inner, float) and abs(inner) >= 2.0 ** 63 and ty not in ("bool",):
+                # [conv.fpint]: the truncated value cannot be represented: undefined, and not a constant expression
+                raise NotConstant("conversion of %r to %s overflows" % (inner, ty))
             return int(inner)          # truncation toward zero
         if ty in ("bool",):
             return bool(inner)
@@ -87,7 +102,29 @@ def ev(e, env, int_result_types=()):
         nm, q, recv, kind = astx.callee(e)
         qual = (e["f"].get("qual") or "") + (q or "")
         args = [ev(a, env) for a in e["a"]]
-        if "gcem" in qual and nm in GCEM and len(args) == GCEM[nm][0]:
+        if nm in BUILTINS and len(args) == BUILTINS[nm][0]:
+            return BUILTINS[nm][1](*[float(a) for a in args])
+        if nm in LIMITS and not args and "numeric_limits" in ((e["f"].get("qual") or "") + (q or "")):
+            return LIMITS[nm]
+        bodies = env.get("__gcem__") or {}
+        if nm in bodies and env.get("__depth__", 0) < 12:
+            cands = [g for g in bodies[nm] if len(g["params"]) == len(args)]
+            last = None
+            for g in cands:
+                sub = dict((p["n"], a) for p, a in zip(g["params"], args))
+                for key in ("__helpers__", "__static__", "__gcem__"):
+                    sub[key] = env.get(key)
+                sub["__int_types__"] = ("llint_t", "ullint_t", "long long", "unsigned long long", "int")
+                sub["__depth__"] = env.get("__depth__", 0) + 1
+                try:
+                    run_stmt(g["body"], sub, env.get("__static__", True))
+                except Return as r:
+                    return r.v
+                except Unmodelled as u:
+                    last = u
+            if last is not None:
+                raise last
+        if "gcem" in qual and nm in GCEM and len(args) == GCEM[nm][0] and not bodies:
             # the third-party constexpr math library is trusted to implement its documented functions
             return GCEM[nm][1](*[float(a) for a in args])
         helpers = env.get("__helpers__") or {}
@@ -158,16 +195,37 @@ GCEM = {
 }
 
 
-def call(f, args, static_choice=True, int_tparams=(), helpers=None):
+BUILTINS = {
+    # compiler builtins with an exact IEEE meaning (usable in constant expressions)
+    "__builtin_signbit": (1, lambda x: math.copysign(1.0, x) < 0),
+    "__builtin_signbitf": (1, lambda x: math.copysign(1.0, x) < 0),
+    "__builtin_signbitl": (1, lambda x: math.copysign(1.0, x) < 0),
+    "__builtin_copysign": (2, lambda x, y: math.copysign(x, y)),
+    "__builtin_copysignf": (2, lambda x, y: math.copysign(x, y)),
+    "__builtin_copysignl": (2, lambda x, y: math.copysign(x, y)),
+    "__builtin_fabs": (1, lambda x: math.fabs(x)),
+    "__builtin_isnan": (1, lambda x: math.isnan(x)),
+    "__builtin_isinf": (1, lambda x: math.isinf(x)),
+}
+
+
+def call(f, args, static_choice=True, int_tparams=(), helpers=None, gcem=None):
     env = dict((p["n"], a) for p, a in zip(f["params"], args))
     env["__int_types__"] = tuple(int_tparams)
     env["__helpers__"] = helpers or {}
+    env["__gcem__"] = gcem or {}
     env["__static__"] = static_choice
     try:
         run_stmt(f["body"], env, static_choice)
     except Return as r:
         return r.v
     raise Unmodelled("no return reached")
+
+
+def _in_long(v):
+    if not -2 ** 63 <= v < 2 ** 63:
+        raise OverflowError("the rounded value is outside the range of the result type: unspecified")
+    return v
 
 
 def rint_spec(x):
@@ -180,8 +238,8 @@ SPECS = {
     "copysign": (2, lambda x, y: math.copysign(x, y)),
     "rint": (1, rint_spec),
     "nearbyint": (1, rint_spec),
-    "lrint": (1, lambda x: int(round(x))),
-    "llrint": (1, lambda x: int(round(x))),
+    "lrint": (1, lambda x: _in_long(int(round(x)))),
+    "llrint": (1, lambda x: _in_long(int(round(x)))),
     "fabs": (1, lambda x: math.fabs(x)),
     "trunc": (1, lambda x: math.copysign(float(math.trunc(x)), x)),
     "floor": (1, lambda x: math.copysign(float(math.floor(x)), x) if math.floor(x) == 0 else float(math.floor(x))),
@@ -189,7 +247,12 @@ SPECS = {
 }
 
 
-def check_helper(f, ident, int_return=False, helpers=None):
+BIG = [4503599627370497.0, 9007199254740991.0, 4611686018427387904.0, 1e19, 1e300]
+TINY = [1e-20, 5e-324]
+REPS_WIDE = REPS + BIG + [-x for x in BIG] + TINY + [-x for x in TINY] + [float("inf"), float("-inf"), float("nan")]
+
+
+def check_helper(f, ident, int_return=False, helpers=None, gcem=None, reps=None):
     """returns ('ok', n) | ('bad', (args, got, want)) | ('unknown', why)"""
     if ident not in SPECS:
         return ("unknown", "no closed-form specification for " + ident)
@@ -201,13 +264,18 @@ def check_helper(f, ident, int_return=False, helpers=None):
     tps = [tp["n"] for tp in (f.get("tparams") or [])]
     ret = (f.get("ret") or "").strip()
     int_tparams = [ret] if (int_return and ret in tps) else []
-    for args in itertools.product(REPS, repeat=arity):
-        want = spec(*args)
+    for args in itertools.product(reps or REPS, repeat=arity):
+        try:
+            want = spec(*args)
+        except (OverflowError, ValueError):
+            continue          # the specification has no finite answer here (conversion of inf / nan / huge to an integer)
         for choice in (True, False):
             try:
-                got = call(f, list(args), choice, int_tparams, helpers)
+                got = call(f, list(args), choice, int_tparams, helpers, gcem)
             except Unmodelled as u:
                 return ("unknown", str(u))
+            except NotConstant as u:
+                return ("bad", (args, "no constant (%s)" % u, want))
             n += 1
             if not same(got, want):
                 return ("bad", (args, got, want))
